@@ -121,7 +121,7 @@ def run_property(prop, root='/repo', tier='quick', seed=0, only_rule=None):
         rr = RuleRun(rdef)
         rdef.fn(ctx, rr)
         n = rr.count()
-        if n < rdef.floor and not os.environ.get('SA_NOFLOOR'):
+        if n < rdef.floor and not os.environ.get('SA_NOFLOOR') and not any(i.status == 'violated' for i in rr.instances):
             raise AnalysisError(
                 f'{rdef.rid}: only {n} instance(s) examined, floor is {rdef.floor} - the rule lost its anchors '
                 f'(pattern no longer recognised); refusing to pass vacuously'
